@@ -1,9 +1,15 @@
 """property id -> units and reporting metadata"""
-from units import specificity
+from units import specificity, best, fragments
 
 PROPS = {
     'C03': {
-        'units': [specificity.jobs],
+        'units': [specificity.jobs, best.jobs, fragments.jobs],
+        'level': 'proof',
+        'unverified': [],
+        'assumptions': [],
+    },
+    'C17': {
+        'units': [fragments.jobs],
         'level': 'proof',
         'unverified': [],
         'assumptions': [],
